@@ -59,43 +59,110 @@ pub fn gen_type(rng: &mut Prng, depth: usize) -> ResolvedType {
     }
 }
 
-fn gen_uint(rng: &mut Prng, ty: UIntType) -> UIntValue {
-    let boundary = rng.below(4);
-    let r128 = |rng: &mut Prng| ((rng.next() as u128) << 64) | rng.next() as u128;
-    let pick = |rng: &mut Prng, max: u128| -> u128 {
-        match boundary {
-            0 => 0,
-            1 => max,
-            2 => {
-                let small = [1u128, 2, 9, 10, 15, 16, 255, 256];
-                *rng.pick(&small) & max
+/// Big-endian bytes of an integer of `bits` bits (1..=256), drawn from patterns that matter to
+/// printers and parsers: zero, max, small numbers, powers of two and their neighbours, sparse bytes,
+/// all-zero 64-bit limbs between non-zero ones, leading zeros, single bytes, runs.
+pub fn gen_int_bytes(rng: &mut Prng, bits: u32) -> [u8; 32] {
+    let mut b = [0u8; 32];
+    let nbytes = ((bits + 7) / 8) as usize;
+    let lo = 32 - nbytes; // b[lo..] is the value
+    let set_bit = |b: &mut [u8; 32], k: u32| b[31 - (k / 8) as usize] |= 1 << (k % 8);
+    match rng.below(13) {
+        0 => {}
+        1 => {
+            for x in b[lo..].iter_mut() {
+                *x = 0xff;
             }
-            _ => r128(rng) & max,
         }
-    };
-    match ty {
-        UIntType::U1 => UIntValue::u1(pick(rng, 1) as u8).unwrap(),
-        UIntType::U2 => UIntValue::u2(pick(rng, 3) as u8).unwrap(),
-        UIntType::U4 => UIntValue::u4(pick(rng, 15) as u8).unwrap(),
-        UIntType::U8 => UIntValue::U8(pick(rng, u8::MAX as u128) as u8),
-        UIntType::U16 => UIntValue::U16(pick(rng, u16::MAX as u128) as u16),
-        UIntType::U32 => UIntValue::U32(pick(rng, u32::MAX as u128) as u32),
-        UIntType::U64 => UIntValue::U64(pick(rng, u64::MAX as u128) as u64),
-        UIntType::U128 => UIntValue::U128(pick(rng, u128::MAX)),
-        UIntType::U256 => {
-            let mut b = [0u8; 32];
-            match boundary {
-                0 => {}
-                1 => b = [0xff; 32],
-                2 => b[31] = 1 + rng.below(255) as u8,
-                _ => {
-                    for x in b.iter_mut() {
-                        *x = rng.below(256) as u8;
+        2 => {
+            let small = [1u16, 2, 9, 10, 15, 16, 99, 100, 255, 256, 1000];
+            let v = *rng.pick(&small);
+            b[31] = v as u8;
+            if nbytes > 1 {
+                b[30] = (v >> 8) as u8;
+            }
+        }
+        3 | 4 => {
+            for x in b[lo..].iter_mut() {
+                *x = rng.below(256) as u8;
+            }
+        }
+        5 => set_bit(&mut b, rng.below(bits as usize) as u32),
+        6 => {
+            // 2^k - 1
+            let k = rng.below(bits as usize + 1) as u32;
+            for i in 0..k {
+                set_bit(&mut b, i);
+            }
+        }
+        7 => {
+            // 2^k + 1
+            set_bit(&mut b, rng.below(bits as usize) as u32);
+            b[31] |= 1;
+        }
+        8 => {
+            for x in b[lo..].iter_mut() {
+                *x = if rng.below(10) < 7 { 0 } else { rng.below(256) as u8 };
+            }
+        }
+        9 => {
+            // 64-bit limbs: zero or random, independently
+            for limb in 0..4 {
+                let zero = rng.coin();
+                for i in 0..8 {
+                    let idx = limb * 8 + i;
+                    if idx >= lo {
+                        b[idx] = if zero { 0 } else { 1 + rng.below(255) as u8 };
                     }
                 }
             }
-            UIntValue::U256(U256::from_byte_array(b))
         }
+        10 => {
+            // leading zero bytes, then random
+            let z = rng.below(nbytes + 1);
+            for x in b[lo + z..].iter_mut() {
+                *x = rng.below(256) as u8;
+            }
+        }
+        11 => {
+            let at = lo + rng.below(nbytes);
+            b[at] = 1 + rng.below(255) as u8;
+        }
+        _ => {
+            // runs of 00 / ff
+            let mut cur = rng.coin();
+            for x in b[lo..].iter_mut() {
+                if rng.below(3) == 0 {
+                    cur = !cur;
+                }
+                *x = if cur { 0xff } else { 0 };
+            }
+        }
+    }
+    if bits < 8 {
+        b[31] &= (1u8 << bits) - 1;
+    }
+    b
+}
+
+fn gen_uint(rng: &mut Prng, ty: UIntType) -> UIntValue {
+    let be = |b: &[u8; 32], n: usize| -> u128 {
+        let mut v = 0u128;
+        for x in &b[32 - n..] {
+            v = (v << 8) | *x as u128;
+        }
+        v
+    };
+    match ty {
+        UIntType::U1 => UIntValue::u1(gen_int_bytes(rng, 1)[31]).unwrap(),
+        UIntType::U2 => UIntValue::u2(gen_int_bytes(rng, 2)[31]).unwrap(),
+        UIntType::U4 => UIntValue::u4(gen_int_bytes(rng, 4)[31]).unwrap(),
+        UIntType::U8 => UIntValue::U8(gen_int_bytes(rng, 8)[31]),
+        UIntType::U16 => UIntValue::U16(be(&gen_int_bytes(rng, 16), 2) as u16),
+        UIntType::U32 => UIntValue::U32(be(&gen_int_bytes(rng, 32), 4) as u32),
+        UIntType::U64 => UIntValue::U64(be(&gen_int_bytes(rng, 64), 8) as u64),
+        UIntType::U128 => UIntValue::U128(be(&gen_int_bytes(rng, 128), 16)),
+        UIntType::U256 => UIntValue::U256(U256::from_byte_array(gen_int_bytes(rng, 256))),
     }
 }
 
